@@ -1,6 +1,7 @@
 package main
 
 import (
+	"verifharness/internal/ctrlnet"
 	"verifharness/internal/gen"
 )
 
@@ -46,6 +47,22 @@ func runC09(c *ctxT) {
 			size = 300000
 		}
 		fragTellCase(c, k, inner, cfg, uint64(i)*13+5, size)
+	}
+	// the part-count limits themselves: the smallest parts, payloads of exactly the
+	// reported MTU and one either side (65535 parts for mbapp, 255 for fragswarm)
+	for _, k := range fragKinds {
+		for _, extra := range []int{1} {
+			inner := k.hdr + extra
+			probe := ctrlnet.New(inner)
+			pu := k.wrap(probe.NewNode(), 1<<24)
+			reported := pu.MTU()
+			pu.Close()
+			for _, d := range []int{0, 1} {
+				if reported+d >= 0 {
+					fragTellCase(c, k, inner, 1<<24, uint64(inner*7+d+3), reported+d)
+				}
+			}
+		}
 	}
 	// ---- whole stacks of real layers: mux, fragmenting, P2PKE, multi-transport ----
 	nStack := c.scale(260, 4000)
